@@ -205,7 +205,7 @@ def handle (toks : List String) : String :=
         let bytewise := runBytes (ipcStep pr) (ipcInit false) xs
         let model := showIpc chunked
         -- the one-shot framing spec applies unless a zero-length body is still pending at the end
-        let spec := if endsWithPendingEmptyBody single.1 then [] else [("spec", ipcSpec pr xs)]
+        let spec := [("spec", ipcSpec pr xs)]
         check model ([("single", showIpc single), ("bytewise", showIpc bytewise)] ++ spec)
       | _, _ => "bad-op"
     | _, _ => "bad-op"
